@@ -39,7 +39,7 @@ CLAIM = {
             "client result, the leftover is always a suffix of the last datagram received (hence fits the buffer), and a longer datagram "
             "provably loses its tail (the bound is necessary; concrete 272-byte example); (T4) pipelined complete requests are each answered "
             "exactly once, in order, with their own transaction id under every chunking. The real client and server are re-run under all "
-            "these segmentations on a scripted connection, and the real UDP adapter on loopback sockets, on every run.",
+            "these segmentations on a scripted connection, and the real UDP adapter on loopback sockets, on every run. At source level (Properties/C05t.v, C12t.v): the translated transports read through io.ReadFull only; udpSockWrapper.Read as translated refines the wrapper model of these theorems.",
     "note": "partial: the models are untimed. That bytes arriving in several segments arrive before the deadline, the 500 us window of the RTU "
             "flush, the kernel's in-order loopback datagram delivery and its truncation of a datagram to the read buffer are runtime facts "
             "exercised by the harness, not modelled (the truncation is a modelling assumption of usw_read, confirmed by the 261/272-byte "
@@ -47,7 +47,7 @@ CLAIM = {
             "cannot produce it, real empty UDP datagrams are exercised. The server has no UDP transport in this library: the UDP part is "
             "about the client. Model follows the tree with fixes F1-F5 applied. Trusted: kernel, extraction, harness, scripted connection, "
             "VerifNewClientOnConn / VerifServeConn hooks.",
-    "technique": "Coq proof (one simulation lemma for io.ReadFull over any in-order single-Read function, readers re-stated over an abstract "
+    "technique": "Coq proof over Go source functions translated on every run (GoLite deep embedding; sockets, clock, handler as external functions over an abstract world) + Coq proof (one simulation lemma for io.ReadFull over any in-order single-Read function, readers re-stated over an abstract "
                  "full reader and proved equal to the flat readers by the same case analysis; instantiated for chunk lists and for the UDP "
                  "adapter; invariant by induction over reads) + differential re-execution under exhaustive / sampled segmentations",
 }
